@@ -864,6 +864,7 @@ def check_c16(run):
     # T-mode on parsers built with an option whose effect is modelled EXACTLY: random histories (parse / resolve / setters / SearchParams / clone)
     # recorded from the real code and validated against the specification run with that option record
     exact = ["special_gopher", "special_nofile", "set_path", "set_query", "set_squery", "set_frag", "set_sfrag"]
+    q = run.tier == "quick"
     r_ = rng(run.seed, "c16traces")
     for i, pn in enumerate(exact if not q else r_.sample(exact, 3)):
         bad, nev = run.record_and_validate(1500 if q else 12000, seed_salt=160 + i, parser=pn, parse_only=40)
